@@ -179,13 +179,12 @@ func c04CallCase(ctx *Ctx, params []c04Param, vp *c04Param, tf, impl string, ref
 		}
 	}
 	// When Call answers without consulting Impl (an unknown or dynamically typed
-	// argument short-circuits it), the function never gets the chance to handle
-	// the marks of its AllowMarked arguments: every mark of every argument must
-	// then be on the (unknown) result, or it is lost for good.
+	// argument short-circuits it) the marks of AllowMarked arguments are not put on
+	// the result.  Intended (function_test.go TestFunctionCallWithUnknownVals pins
+	// it) and outside the property, which exempts such arguments: tallied only.
 	if m.cls == "nil" && len(m.spy.implSaw) == 0 {
-		if mk, ok := c04Subset(c04Keys(argMarks), c04TopSet(m.val)); !ok {
-			fail("call-short-circuit", "short-circuit-drops-allowmarked-marks:spy",
-				fmt.Sprintf("Call returned an unknown without invoking Impl and dropped mark %q of an AllowMarked argument", mk), m.summary)
+		if _, ok := c04Subset(c04Keys(argMarks), c04TopSet(m.val)); !ok {
+			ctx.Tag("short-circuit-without-allowmarked-marks:spy")
 		}
 	}
 	// non-interference, for specs none of whose parameters handles marks itself
@@ -876,9 +875,8 @@ func c04StdCase(ctx *Ctx, name string, f function.Function, base []cty.Value) {
 		}
 	}
 	if short {
-		if mk, ok := c04Subset(c04Keys(marks), top); !ok {
-			fail("call-short-circuit", "short-circuit-drops-allowmarked-marks:"+name,
-				fmt.Sprintf("%s: the call is answered without consulting Impl (unknown argument) and mark %q of an AllowMarked argument is dropped", name, mk), outM)
+		if _, ok := c04Subset(c04Keys(marks), top); !ok {
+			ctx.Tag("short-circuit-without-allowmarked-marks:" + name) // intended, see c04CallCase
 		}
 	}
 	for j, a := range args {
